@@ -19,7 +19,7 @@ import numpy as np
 warnings.simplefilter("ignore")
 
 KEY = {"time": 0, "pos": 1, "track_id": 2, "lineage_id": 3, "area": 4, "ellipse_axis_radii": 5, "circularity": 6,
-       "perimeter": 7, "iou": 8, "z": 10, "y": 11, "x": 12, "c1": 100, "c2": 101, "bogus": 999}
+       "perimeter": 7, "iou": 8, "z": 10, "y": 11, "x": 12, "c1": 100, "c2": 101, "e1": 102, "bogus": 999}
 KEYNAME = {v: k for k, v in KEY.items()}
 RP_KEYS = ["pos", "area", "ellipse_axis_radii", "circularity", "perimeter"]
 
@@ -59,6 +59,7 @@ def gen_config(rng, seg_p=0.5):
         cfg["enable"] = []
         cfg["per_axis"] = rng.random() < 0.25
     cfg["custom"] = rng.random() < 0.5
+    cfg["custom_edge"] = rng.random() < 0.4
     return cfg
 
 
@@ -102,7 +103,10 @@ def gen_forest(rng, cfg):
     for v in order:
         c = [u for u in g.nodes if g.nodes[u]["time"] < g.nodes[v]["time"] and g.out_degree(u) < 2]
         if c and rng.random() < 0.7:
-            g.add_edge(rng.choice(c), v)
+            if cfg.get("custom_edge"):
+                g.add_edge(rng.choice(c), v, e1=rng.choice([0, 0, 1, 2, 7]))   # falsy values on purpose
+            else:
+                g.add_edge(rng.choice(c), v)
     return g, seg
 
 
@@ -117,6 +121,8 @@ def build_tracks(cfg, g, seg):
         t.enable_features(list(cfg["enable"]))
     if cfg["custom"]:
         t.features["c1"] = {"feature_type": "node", "value_type": "int", "num_values": 1, "required": False, "default_value": None}
+    if cfg.get("custom_edge"):
+        t.features["e1"] = {"feature_type": "edge", "value_type": "int", "num_values": 1, "required": False, "default_value": None}
     return t
 
 
@@ -219,6 +225,8 @@ def init_lines(t, cfg, rp_vals=True):
         for k, val in g.edges[u, v].items():
             if k == "iou":
                 toks.append("8=" + iou_txt(t, u, v))
+            elif val is not None:
+                toks.append("%d=t%d" % (KEY[k], int(val)))
         L.append(("E %d %d %s" % (u, v, " ".join(toks))).rstrip())
     for k, v in a.tracklet_id_to_nodes.items():
         L.append("B T %d %s" % (k, ",".join(map(str, v))))
@@ -259,6 +267,11 @@ def gen_op(rng, t, cfg, ids_seen):
     g = t.graph
     ns = list(g.nodes)
     T = cfg["T"]
+    if cfg.get("_plan"):
+        item, cfg["_plan"] = cfg["_plan"][0], cfg["_plan"][1:]
+        op = planned_op(rng, t, cfg, item)
+        if op is not None:
+            return op
     pick = lambda: rng.choice(ns + [99]) if ns and rng.random() < 0.93 else 99
     w = [("ae", 16), ("de", 13), ("an", 14), ("dn", 10), ("sw", 6), ("ua", 5), ("u", 11), ("r", 6), ("q", 4)]
     if cfg["seg"]:
@@ -334,6 +347,10 @@ def gen_op(rng, t, cfg, ids_seen):
                 b = blob(rng, cfg["shape"], occ)
                 if b is not None:
                     px = (tm, b)
+                    if rng.random() < 0.3:   # a position / area hint together with the mask
+                        hint = rng.choice(["pos", "area"])
+                        attrs[hint] = [float(nid)] + [0.0] * (cfg["ndim"] - 2) if hint == "pos" else float(nid)
+                        toks.append("%d=t%d" % (KEY[hint], nid))
         elif rng.random() < 0.9:
             if cfg["per_axis"]:
                 axes = (["z"] if cfg["ndim"] == 4 else []) + ["y", "x"]
@@ -431,6 +448,53 @@ def gen_op(rng, t, cfg, ids_seen):
     return "P %d %d %s %d %d" % (new, tm, ".".join(map(str, idx)), tid, f), do_paint, "paint"
 
 
+def planned_op(rng, t, cfg, item):
+    """one step of a directed pattern (see gen_toggle); None when it no longer applies"""
+    from funtracks.user_actions import UserUpdateSegmentation
+
+    kind, arg = item
+    if kind == "dis":
+        ks = list(arg)
+        return "DIS %s" % ",".join(str(KEY[k]) for k in ks), (lambda: t.disable_features(ks)), "disable"
+    if kind == "en":
+        ks, rc = arg
+        return "EN %s %d - -" % (",".join(str(KEY[k]) for k in ks), rc), (lambda: t.enable_features(list(ks), recompute=bool(rc))), "enable"
+    if kind == "erase_overlap":
+        u, v = arg
+        g = t.graph
+        if u not in g or v not in g or t.segmentation is None:
+            return None
+        seg = np.asarray(t.segmentation)
+        A = set(np.nonzero(seg[t.get_time(u)].reshape(-1) == u)[0].tolist())
+        B = set(np.nonzero(seg[t.get_time(v)].reshape(-1) == v)[0].tolist())
+        ov = sorted(A & B)
+        if not ov:
+            return None
+        node, tm, rest = (v, t.get_time(v), B - set(ov)) if len(B) > len(ov) else (u, t.get_time(u), A - set(ov))
+        if not rest:
+            return None
+        idx = ov
+        tid = t.get_track_id(node)
+
+        def do_erase():
+            flat = t.segmentation[tm].reshape(-1)
+            old = flat[idx].copy()
+            groups = []
+            for val in sorted(set(int(o) for o in old.tolist() if o != 0)):
+                gi = [i for i, o in zip(idx, old.tolist()) if o == val]
+                groups.append((to_pixels(cfg, (tm, gi)), val))
+            flat[[i for i, o in zip(idx, old.tolist()) if o != 0]] = 0
+            try:
+                UserUpdateSegmentation(t, 0, groups, current_track_id=tid, force=False)
+            except BaseException:
+                flat = t.segmentation[tm].reshape(-1)
+                flat[idx] = old
+                raise
+
+        return "P 0 %d %s %d 0" % (tm, ".".join(map(str, idx)), tid), do_erase, "paint"
+    return None
+
+
 def toggle_domain(cfg):
     """managed keys the generator may switch (numeric-kernel domain limits respected)"""
     ks = []
@@ -453,6 +517,18 @@ def gen_toggle(rng, t, cfg):
     dom = toggle_domain(cfg)
     act = {k for ann in t.annotators for k, (_, on) in ann.all_features.items() if on}
     r = rng.random()
+    # directed patterns: (a) disable iou, make an overlap vanish, enable iou again (bulk must write the 0);
+    # (b) register a disabled key without recomputation, then enable it with recomputation
+    if cfg["seg"] and "iou" in act and rng.random() < 0.25:
+        es = [(u, w) for u, w in g.edges if g.edges[u, w].get("iou")]
+        if es:
+            cfg["_plan"] = [("erase_overlap", rng.choice(es)), ("en", (["iou"], 1))]
+            return planned_op(rng, t, cfg, ("dis", ["iou"]))
+    off = [k for k in dom if k not in act]
+    if off and rng.random() < 0.2:
+        k = rng.choice(off)
+        cfg["_plan"] = [("en", ([k], 1))]
+        return planned_op(rng, t, cfg, ("en", ([k], 0)))
     if r < 0.55:
         pool = dom + ["track_id", "lineage_id"]
         ks = rng.sample(pool, rng.randint(1, min(3, len(pool))))
@@ -557,6 +633,7 @@ def run_scenario(seed, idx, nsteps=None, seg_p=0.5, on_step=None, toggles=0.0):
     finally:
         signal.signal(signal.SIGALRM, old)
     cfg.pop("_burst", None)
+    cfg.pop("_plan", None)
     return {"lines": lines, "obs": obs, "kinds": kinds, "cfg": cfg, "seed": seed, "index": idx, "tracks": t}
 
 
